@@ -87,13 +87,18 @@ TModelCmp == LET r == Events[l]  c == Compare(r.a, r.b) IN
           /\ HashCongruent(r.a, r.b, B(r.heq)),
           [cls |-> "model_order", key |-> r.model, num |-> r.num, detail |-> <<r.a, r.b>>])
   /\ seen' = [seen EXCEPT !.cmp = @ + 1]
+(* a copy (copy / move construction, copy / move assignment) compares equal to its source and hashes equally *)
+TModelCopy == LET r == Events[l] IN
+  /\ IsEvent("ModelCopy")
+  /\ Flag(r.ok = 1, [cls |-> "model_order", key |-> r.model \o ":copy", num |-> r.num, detail |-> <<>>])
+  /\ UNCHANGED seen
 TFinish == /\ l = Len(Events) + 1 /\ l' = l + 1
            /\ JsonSerialize(IOEnv.OUT, [bad |-> bad, ctors |-> Cardinality(seen.ctors), overloads |-> Cardinality(seen.overloads),
                                          fluid |-> Cardinality(seen.fluid), cmp |-> seen.cmp, map_combinations |-> Cardinality(seen.maps),
                                          ctor_pairs_missing |-> Cardinality((E!SupportedPairs \X {"f", "d", "l"}) \ {<<<<x[1], x[2]>>, x[3]>> : x \in seen.ctors})])
            /\ UNCHANGED <<bad, seen>>
 Next == TElasticCtor \/ TElasticStress \/ TElasticStrain \/ TStub \/ TFluidStress \/ TFluidRate \/ TFluidLinear \/ TFluidOneArg
-        \/ TElasticRebuild \/ TCompose \/ TMapReal \/ TModelText \/ TModelCmp \/ TFinish
+        \/ TElasticRebuild \/ TCompose \/ TMapReal \/ TModelText \/ TModelCmp \/ TModelCopy \/ TFinish
 Spec == Init /\ [][Next]_vars
 Accepted == TLCGet("stats").diameter - 2 = Len(Events)
 =============================================================================
